@@ -930,8 +930,8 @@ SCENARIOS += [
 
 def s_anyrank_merge_shapes(ctx):
     """_merge_shapes (backward shape inference on Identity) for shapes of ANY rank: two sound annotations of the same run-time shape merge
-    into a sound annotation of it — same rank, and every merged dim denotes the run-time extent under every binding (a static int wins
-    over a symbol, a named symbol over an unknown one)."""
+    into a sound annotation of it — same rank, and every merged dim denotes the run-time extent under every binding.  (Which of two sound
+    dims is kept is a matter of precision, not of the property: no obligation.)"""
     from .symshape import describe, denotes
     ir, SymShape, I, W, state, i0 = _anyrank(ctx)
     A = SymShape(I, "preferred")
@@ -959,8 +959,7 @@ def s_anyrank_merge_shapes(ctx):
     d = dims.at(i0)
     ctx.cover("merge_shapes.any_rank.dim")
     ctx.check("C09.folding.merge_shapes.any_rank.merged_dim_denotes_the_runtime_extent_for_every_binding", denotes(describe(d), A.rt(p)), CLR)
-    k, _iv, _nm = describe(d)
-    ctx.check("C09.folding.merge_shapes.any_rank.nothing_known_is_lost", z3.Implies(z3.Or(A.kind(p) != 2, B.kind(p) != 2), k != 2), CLR)
+
 
 
 SCENARIOS.append(Scenario("C09.folding.merge_shapes[any rank]", s_anyrank_merge_shapes, [(REL, "_merge_shapes"), (REL, "_merge_shapes.merge_dims")],
